@@ -170,3 +170,7 @@ func vPred(name, arg string) bool {
 	vs := vReplayVals["pred:"+name+":"+arg]
 	return len(vs) > 0 && vs[0] == "true"
 }
+
+// Trace inspection exists only under the engine; natively nothing is recorded.
+func vEventCount(prefix string) int                      { return 0 }
+func vEventArgIs(tag string, k int, v interface{}) bool  { return true }
